@@ -410,6 +410,9 @@ let ghost vs = self . values @ ;
 let ghost st = self . states @ ;
 proof {
 lemma_fdel_progress ( ks0 , st0 , ks , st , idx0 , e , m , h , lg ) ;
+if ! ( st [ probe as int ] as int > drift as int ) {
+lemma_fdel_skip ( ks0 , st0 , ks , st , idx0 , e , m , h , lg ) ;
+}
 }
 if self . states [ probe ] as usize > drift {
 self . keys [ delete_probe ] = self . keys [ probe ] . take ( ) ;
@@ -426,11 +429,6 @@ h = m + 1 ;
 }
 drift = 0 ;
 delete_probe = probe ;
-}
-else {
-proof {
-lemma_fdel_skip ( ks0 , st0 , ks , st , idx0 , e , m , h , lg ) ;
-}
 }
 proof {
 lemma_probe_step ( idx0 , 1 , m + 1 , n , probe as int ) ;
@@ -472,6 +470,11 @@ let vx_lo1 = 0 ;
 while vx_n1 > vx_lo1 invariant eq_law :: < T > ( ) , self . wf ( ) , runs_short ( self . states @ ) , self . lg_length == lg , self . load_threshold == old ( self ) . load_threshold , n == self . states @ . len ( ) , n == pow2 ( lg as nat ) , fshape ( ks0 , vs0 , st0 , lg ) , 0 <= vx_lo1 <= vx_n1 <= first_probe < n , vx_lo1 == 0 , self . states @ [ first_probe as int ] == 0 , keep_inv ( ks0 , vs0 , st0 , self . keys @ , self . values @ , self . states @ ) , self . num_active <= old ( self ) . num_active , self . num_active == old ( self ) . num_active ==> self . keys @ == ks0 && self . states @ == st0 && self . values @ == vs0 , forall | x : int | vx_n1 <= x < first_probe && self . states @ [ x ] > 0 ==> self . values @ [ x ] > 0 , decreases vx_n1 {
 vx_n1 -= 1 ;
 let probe = vx_n1 ;
+proof {
+if self . states @ [ probe as int ] > 0 {
+lemma_focc_pos ( self . states @ , probe as int ) ;
+}
+}
 if self . states [ probe ] > 0 && self . values [ probe ] == 0 {
 let ghost ks = self . keys @ ;
 let ghost vs = self . values @ ;
@@ -494,6 +497,11 @@ let vx_lo2 = first_probe ;
 while vx_n2 > vx_lo2 invariant eq_law :: < T > ( ) , self . wf ( ) , runs_short ( self . states @ ) , self . lg_length == lg , self . load_threshold == old ( self ) . load_threshold , n == self . states @ . len ( ) , n == pow2 ( lg as nat ) , fshape ( ks0 , vs0 , st0 , lg ) , 0 <= vx_lo2 <= vx_n2 <= n , vx_lo2 == first_probe , first_probe < n , self . states @ [ first_probe as int ] == 0 , keep_inv ( ks0 , vs0 , st0 , self . keys @ , self . values @ , self . states @ ) , self . num_active <= old ( self ) . num_active , self . num_active == old ( self ) . num_active ==> self . keys @ == ks0 && self . states @ == st0 && self . values @ == vs0 , forall | x : int | ( vx_n2 <= x < n || 0 <= x < first_probe ) && self . states @ [ x ] > 0 ==> self . values @ [ x ] > 0 , decreases vx_n2 {
 vx_n2 -= 1 ;
 let probe = vx_n2 ;
+proof {
+if self . states @ [ probe as int ] > 0 {
+lemma_focc_pos ( self . states @ , probe as int ) ;
+}
+}
 if self . states [ probe ] > 0 && self . values [ probe ] == 0 {
 let ghost ks = self . keys @ ;
 let ghost vs = self . values @ ;
@@ -590,6 +598,10 @@ assert ( st0 [ i as int ] > 0 && vs0 [ i as int ] == samples @ [ j ] ) ;
 i += 1 ;
 }
 let ghost s0 = samples @ ;
+proof {
+let sl = samples . len ( ) ;
+assert ( sl >> 1 == sl / 2 ) by ( bit_vector ) ;
+}
 let mid = samples . len ( ) / 2 ;
 samples . select_nth_unstable ( mid ) ;
 let median = samples [ mid ] ;
@@ -1117,6 +1129,16 @@ proof fn lemma_runs_short_at(st: Seq<u16>, idx: int)
   requires runs_short(st), 0 <= idx < st.len()
   ensures exists|e: int| 1 <= e < DRIFT_LIMIT - 1 && st[#[trigger] dpos(idx, e, st.len() as int)] == 0
 { assert(run_short_at(st, idx)); }
+// an occupied slot makes the occupancy count positive (so `num_active -= 1` cannot underflow wherever it is placed)
+proof fn lemma_focc_pos(st: Seq<u16>, p: int)
+  requires 0 <= p < st.len(), st[p] > 0
+  ensures focc(st).len() > 0
+{
+    assert(focc(st).contains(p));
+    vstd::set_lib::lemma_int_range(0, st.len() as int);
+    Set::range(0, st.len() as int).lemma_len_filter(|i: int| st[i] > 0);
+    if focc(st).len() == 0 { focc(st).lemma_len0_is_empty(); }
+}
 proof fn lemma_fexists_empty(st: Seq<u16>) -> (z: int)
   requires focc(st).len() < st.len()
   ensures 0 <= z < st.len(), st[z] == 0
